@@ -184,6 +184,8 @@
     (setv form (hy-repr (get x 0)))
     (+
       "{"
+      ; A form that starts with a brace must not be read as `{{`.
+      (if (.startswith form "{") " " "")
       form
       (if x.conversion f" !{x.conversion}" "")
       (if (> (len x) 1)
